@@ -439,12 +439,14 @@ func C08(p *Prog, r *Run) {
 		add := p.FuncOpt(PkgG, "Species.addOrganism")
 		back := p.Field(PkgG, "Organism", "Species")
 		nCalls, nSt := 0, 0
+		nFound, nAdds := 0, 0 // founding sites (calls of the founding function, species founded in place); sites that list an organism in a species
 		inPlace := freshSpeciesValues(p, NewSummaries(p), spec)
 		if cfs == nil && len(inPlace) == 0 {
 			p.Func(PkgG, "createFirstSpecies") // no founding code at all: the anchor is missing
 		}
 		for _, sp := range inPlace {
 			nCalls++
+			nFound++
 			r.OK("createFirstSpecies.caller:"+spec.Name(), p.Pos(sp.Pos()), "a species founded in place by speciate")
 		}
 		for _, fn := range p.SrcFuncs() {
@@ -457,6 +459,7 @@ func C08(p *Prog, r *Run) {
 			Instrs(fn, func(_ *ssa.BasicBlock, _ int, in ssa.Instruction) {
 				if m, _ := memberWrite(p, in); m != nil && fn != add {
 					nCalls++
+					nAdds++
 					r.Check(fn == spec || fn == cfs, "addOrganism.caller:"+fn.Name(), p.Pos(in.Pos()), "called by the speciation code", FuncName(fn)+" puts an organism into a species without speciate's comparison with the representatives (nearest compatible species / founding when none is compatible)")
 				}
 			})
@@ -465,6 +468,7 @@ func C08(p *Prog, r *Run) {
 					break
 				}
 				nCalls++
+				nFound++
 				r.Check(fn == spec, "createFirstSpecies.caller:"+fn.Name(), p.Pos(c.Pos()), "called by speciate", FuncName(fn)+" founds a species for an organism outside speciate: whether an existing representative is within the threshold is not examined")
 			}
 			for _, st := range FieldStores(fn, back) {
@@ -484,7 +488,13 @@ func C08(p *Prog, r *Run) {
 				r.Check(okS, "Organism.Species.writer:"+fn.Name(), p.Pos(st.Pos()), "back pointer set by the speciation code", FuncName(fn)+" sets an organism's species back pointer outside speciate")
 			}
 		}
-		r.Floor("membership call sites", nCalls, 4)
+		// what the rule must have seen not to pass vacuously: the code that founds a species for an organism (at least one site:
+		// the `no species yet` and the `none is compatible` cases may share one) and the two ways an organism gets listed in a
+		// species (joining the selected one, being listed in the one founded for it) - three sites in all, however the founding
+		// sites are arranged (how many founding paths speciate has, and what justifies each, is the subject of C08.3)
+		r.Floor("founding sites", nFound, 1)
+		r.Floor("sites that list an organism in a species", nAdds, 2)
+		r.Floor("membership call sites", nCalls, 3)
 		r.Floor("back-pointer stores", nSt, 2)
 	})
 
